@@ -387,6 +387,11 @@ func suiteReqPath(e *vh.Env) {
 			}
 			if rng.Chance(40) {
 				hdr = append(hdr, [2]string{"User-Agent", "verif-client/1.0"})
+				if rng.Chance(12) {
+					hdr = append(hdr, [2]string{"User-Agent", "second-product/2.0"}) // a repeated field like any other
+				}
+			} else if rng.Chance(5) {
+				hdr = append(hdr, [2]string{"User-Agent", ""}) // present but empty
 			}
 			if rng.Chance(25) {
 				// end-to-end fields whose names merely resemble hop-by-hop ones
@@ -419,7 +424,25 @@ func suiteReqPath(e *vh.Env) {
 			for _, kv := range hdr {
 				fmt.Fprintf(&w, "%s: %s\r\n", kv[0], kv[1])
 			}
-			w.WriteString("Connection: close\r\n")
+			// sometimes the client nominates one of its own fields as hop-by-hop (RFC 7230 6.1): it must then not be forwarded
+			nominated := ""
+			if rng.Chance(12) {
+				var cands []string
+				for _, kv := range hdr {
+					cn := http.CanonicalHeaderKey(kv[0])
+					if cn != "X-Case" && !hopNames[cn] && cn != "Cookie" {
+						cands = append(cands, kv[0])
+					}
+				}
+				if len(cands) > 0 {
+					nominated = cands[rng.Intn(len(cands))]
+				}
+			}
+			if nominated != "" {
+				w.WriteString("Connection: close, " + nominated + "\r\n")
+			} else {
+				w.WriteString("Connection: close\r\n")
+			}
 			if chunked {
 				w.WriteString("Transfer-Encoding: chunked\r\n\r\n")
 				rest := body
@@ -449,6 +472,9 @@ func suiteReqPath(e *vh.Env) {
 			go c.Write(w.Bytes())
 			resp, err := http.ReadResponse(bufio.NewReader(c), &http.Request{Method: method})
 			what := fmt.Sprintf("case %d: %s %s body=%d chunked=%v headers=%v", i, method, path, len(body), chunked, hdr)
+			if nominated != "" {
+				what += " Connection-nominated=" + nominated
+			}
 			if err != nil {
 				c.Close()
 				e.Fail("C02:no-response", what+": "+err.Error(), i, nil, nil, nil)
@@ -486,13 +512,19 @@ func suiteReqPath(e *vh.Env) {
 			sort.Strings(names)
 			for _, nm := range names {
 				g := got.hdr[nm]
-				if hopNames[nm] {
+				if hopNames[nm] || (nominated != "" && nm == http.CanonicalHeaderKey(nominated)) {
 					if len(g) > 0 {
 						e.Fail("C02:hop-by-hop-forwarded", fmt.Sprintf("%s; hop-by-hop field %s=%q reached the backend", what, nm, g), i, nil, g, nil)
 					}
 					continue
 				}
 				want := valuesOf(hdr, nm)
+				if nm == "User-Agent" && (len(want) > 1 || want[0] == "") && strings.Join(g, "\x00") != strings.Join(want, "\x00") {
+					// net/http's Request.Write (used by the stand-alone proxy to hand the request to the agent) writes
+					// exactly one User-Agent line, from Header.Get, and none when that value is empty
+					e.Fail("C02:user-agent-rewritten-by-request-write", fmt.Sprintf("%s; header User-Agent: backend received %q, client sent %q", what, g, want), i, nil, g, want)
+					continue
+				}
 				if strings.Join(g, "\x00") != strings.Join(want, "\x00") {
 					e.Fail("C02:header-altered", fmt.Sprintf("%s; header %s: backend received %q, client sent %q", what, nm, g, want), i, nil, g, want)
 				}
